@@ -121,7 +121,7 @@ static void ms_op(const Args &a) {
         ev.b("srcval", sval(m, src));
     } else if (name == "free") {
         ascon_masked_state_t *s = sobj(id); ascon_masked_state_free(s);
-        if (a.num("dump_raw")) ev.b("rawbytes", (const uint8_t *)s, sizeof(*s));
+        if (a.num("dump_raw")) ev.n("wipe", a.num("wipe")).b("raw", (const uint8_t *)s, sizeof(*s));
         ev.emit(); obj_del(id); return;
     } else fatal("ms.op name %s", name.c_str());
     ev.b("val", sval(n, sobj(id))).raw("raw", sraw(n, sobj(id))).raw("tape_used", tape_used_json());
@@ -152,7 +152,7 @@ static void mk_op(const Args &a) {
         } else if (name == "extract") { }
         else if (name == "free") {
             if (bits == 128) ascon_masked_key_128_free((ascon_masked_key_128_t *)m); else ascon_masked_key_160_free((ascon_masked_key_160_t *)m);
-            if (a.num("dump_raw")) ev.b("rawbytes", (const uint8_t *)m, sz);
+            if (a.num("dump_raw")) ev.n("wipe", a.num("wipe")).b("raw", (const uint8_t *)m, sz);
             ev.emit(); obj_del(id); return;
         } else fatal("mk.op name");
     }
